@@ -3,7 +3,7 @@
    Assembled from the two memory lemmas of ProofsMem.v by induction over the slot list (rows) and the waveform list
    (segments). *)
 From Coq Require Import ZArith QArith Qround Qabs Bool List Lia.
-Require Import QV.common.Util QV.C20.Model QV.C20.Spec QV.C20.ProofsMem.
+Require Import QV.common.Util QV.C20.Model QV.C20.Spec QV.C20.ProofsMem QV.C20.ProofsTimes.
 Import ListNotations.
 Open Scope nat_scope.
 
@@ -155,6 +155,75 @@ Proof.
   rewrite map_length, firstn_length. lia.
 Qed.
 
+(* ---- round 5: Spec.v no longer uses the model's per-slot sampling functions.  `direct_one` is the old formulation (model's
+        sampled_channel / sampled_marker, no memory); the specification's own value functions are equal to them ---- *)
+Definition direct_one (chans : list (option chan_cfg)) (markers : list (option Z)) (wl : wf_obs * Z) : outcome sampled :=
+  let '(wf, len) := wl in
+  let n := Z.to_nat len in
+  let cs := map (fun c : option chan_cfg => match c with
+                         | None => ORet None
+                         | Some cfg => match sampled_channel n wf cfg with ORet xs => ORet (Some xs) | OErr => OErr end
+                         end) chans in
+  let ms := map (fun c : option Z => match c with
+                         | None => ORet None
+                         | Some ch => match sampled_marker n wf ch with ORet xs => ORet (Some xs) | OErr => OErr end
+                         end) markers in
+  match all_ok cs, all_ok ms with
+  | ORet c, ORet m => ORet (c, m)
+  | _, _ => OErr
+  end.
+
+Lemma find_lookup {A} (ch : Z) (l : list (Z * A)) :
+  match find (fun p : Z * A => (fst p =? ch)%Z) l with None => None | Some p => Some (snd p) end = lookup ch l.
+Proof.
+  induction l as [|[k a] r IH]; [reflexivity|]. cbn [find lookup fst]. rewrite (Z.eqb_sym ch k).
+  destruct (k =? ch)%Z; [reflexivity|exact IH].
+Qed.
+
+Lemma spec_raw_lookup n wf ch :
+  spec_raw n wf ch = match lookup ch (snd wf) with
+                     | None => OErr
+                     | Some raw => if length raw <? n then OErr else ORet (firstn n raw)
+                     end.
+Proof.
+  unfold spec_raw. rewrite <- find_lookup. destruct (find _ (snd wf)) as [p|]; [|reflexivity].
+  rewrite Nat.ltb_antisym. destruct (n <=? length (snd p)); reflexivity.
+Qed.
+
+Lemma spec_chan_values_model n wf c : spec_chan_values n wf c = sampled_channel n wf c.
+Proof.
+  destruct c as [[[ch T] amp] off]. unfold spec_chan_values, sampled_channel. rewrite spec_raw_lookup.
+  destruct (lookup ch (snd wf)) as [raw|]; [|reflexivity]. destruct (length raw <? n); [reflexivity|].
+  cbn [map_out]. apply f_equal. apply map_ext. intro x. destruct T; reflexivity.
+Qed.
+
+Lemma spec_marker_values_model n wf ch : spec_marker_values n wf ch = sampled_marker n wf ch.
+Proof.
+  unfold spec_marker_values, sampled_marker. rewrite spec_raw_lookup.
+  destruct (lookup ch (snd wf)) as [raw|]; [|reflexivity]. destruct (length raw <? n); reflexivity.
+Qed.
+
+Lemma spec_sample_one_direct chans markers wl : spec_sample_one chans markers wl = direct_one chans markers wl.
+Proof.
+  destruct wl as [wf len]. unfold spec_sample_one, direct_one. cbn [fst snd].
+  set (n := Z.to_nat len).
+  assert (EC : map (spec_slot (spec_chan_values n wf)) chans
+               = map (fun c : option chan_cfg => match c with
+                         | None => ORet None
+                         | Some cfg => match sampled_channel n wf cfg with ORet xs => ORet (Some xs) | OErr => OErr end
+                         end) chans).
+  { apply map_ext. intros [c|]; [|reflexivity]. cbn [spec_slot]. rewrite spec_chan_values_model.
+    destruct (sampled_channel n wf c); reflexivity. }
+  assert (EM : map (spec_slot (spec_marker_values n wf)) markers
+               = map (fun c : option Z => match c with
+                         | None => ORet None
+                         | Some ch => match sampled_marker n wf ch with ORet xs => ORet (Some xs) | OErr => OErr end
+                         end) markers).
+  { apply map_ext. intros [c|]; [|reflexivity]. cbn [spec_slot]. rewrite spec_marker_values_model.
+    destruct (sampled_marker n wf c); reflexivity. }
+  rewrite EC, EM. reflexivity.
+Qed.
+
 (* ---- all waveforms ---- *)
 Definition total_n (wfs : list (wf_obs * Z)) : nat := fold_right (fun wl acc => Z.to_nat (snd wl) + acc) 0 wfs.
 
@@ -165,7 +234,7 @@ Section SampleGo.
     Z.to_nat (snd (nni_go chans 0)) <= length cmem -> rows_len L cmem ->
     Z.to_nat (snd (nni_go markers 0)) <= length mmem -> rows_len L mmem ->
     pos + total_n wfs <= L ->
-    match all_ok (map (spec_sample_one chans markers) wfs) with
+    match all_ok (map (direct_one chans markers) wfs) with
     | OErr => sample_go chans markers (fst (nni_go chans 0)) (fst (nni_go markers 0)) wfs cmem mmem pos = OErr
     | ORet outs =>
         exists c m vs,
@@ -180,7 +249,7 @@ Section SampleGo.
     - cbn. exists cmem, mmem, []. repeat split; auto.
     - cbn [map all_ok sample_go]. cbn [total_n fold_right snd] in Htot. fold (total_n r) in Htot.
       set (n := Z.to_nat len) in *.
-      unfold spec_sample_one at 1. fold n.
+      unfold direct_one at 1. fold n.
       change (map (fun c : option chan_cfg => match c with
                          | None => ORet None
                          | Some cfg => match sampled_channel n wf cfg with ORet xs => ORet (Some xs) | OErr => OErr end
@@ -199,7 +268,7 @@ Section SampleGo.
       destruct (all_ok (map (lift_sample (sampled_marker n wf)) markers)) as [mo|]; [|rewrite WM; reflexivity].
       destruct WM as (mmem1 & mv & WM & Lm1 & HLm1 & _ & Leftm & Rdm & Belm). rewrite WM.
       specialize (IH cmem1 mmem1 (pos + n)). rewrite Lc1, Lm1 in IH. specialize (IH Hc HLc1 Hm HLm1 ltac:(lia)).
-      destruct (all_ok (map (spec_sample_one chans markers) r)) as [outs|]; [|rewrite IH; reflexivity].
+      destruct (all_ok (map (direct_one chans markers) r)) as [outs|]; [|rewrite IH; reflexivity].
       destruct IH as (c & m & vs & G & Lc & Lm & Rd). rewrite G.
       exists c, m, ((cv, mv) :: vs). split; [reflexivity|]. split; [|split].
       + intros j p2 m2 H2. rewrite Lc by lia. apply Leftc; exact H2.
@@ -246,15 +315,25 @@ Proof.
 Qed.
 
 (* ---- the theorem: flat memory + views = direct formula (Leibniz equality, hence also the boolean comparison) ---- *)
+Lemma spec_lengths_model rate (wfs : list wf_obs) :
+  map (fun wf : wf_obs => spec_length rate (fst wf)) wfs = map (waveform_length rate) (map fst wfs).
+Proof. rewrite map_map. apply map_ext. intro wf. symmetry. apply waveform_length_is_spec. Qed.
+
 Theorem sample_waveforms_is_spec chans markers rate wfs :
   sample_waveforms chans markers rate wfs = spec_sample chans markers rate wfs.
 Proof.
   unfold sample_waveforms, spec_sample.
-  destruct (sample_times rate (map fst wfs)) as [[ts lens]|] eqn:ST; [|reflexivity].
+  destruct wfs as [|w0 wfs0]; [reflexivity|]. set (wfs := w0 :: wfs0). rewrite spec_lengths_model.
+  assert (ST : sample_times rate (map fst wfs)
+               = match all_ok (map (waveform_length rate) (map fst wfs)) with
+                 | OErr => OErr
+                 | ORet lens => ORet (map (grid_impl rate (fold_right Z.max 0%Z lens)) (zrange (fold_right Z.max 0%Z lens)), lens)
+                 end) by reflexivity.
+  rewrite ST. clear ST.
+  destruct (all_ok (map (waveform_length rate) (map fst wfs))) as [lens|] eqn:AO; [|reflexivity].
+  rewrite (map_ext _ _ (spec_sample_one_direct chans markers)).
   assert (Hpos : Forall (fun z => (0 < z)%Z) lens).
-  { unfold sample_times in ST. destruct (map fst wfs) as [|d ds] eqn:Ed; [discriminate|]. rewrite <- Ed in ST.
-    destruct (all_ok (map (waveform_length rate) (map fst wfs))) as [ls|] eqn:AO; [|discriminate].
-    injection ST as _ <-. eapply all_ok_Forall; [|exact AO]. intros x r. apply waveform_length_pos. }
+  { eapply all_ok_Forall; [|exact AO]. intros x r. apply waveform_length_pos. }
   set (total := Z.to_nat (fold_right Z.add 0%Z lens)).
   unfold not_none_indices.
   pose proof (sample_go_spec chans markers total (combine wfs lens)
@@ -264,7 +343,7 @@ Proof.
   specialize (G (le_n _) (rows_len_repeat _ _ _) (le_n _) (rows_len_repeat _ _ _)
                 ltac:(cbn [Nat.add]; apply total_n_combine; exact Hpos)).
   destruct (nni_go chans 0) as [ci nch]. destruct (nni_go markers 0) as [mi nmk]. cbn [fst snd] in G.
-  destruct (all_ok (map (spec_sample_one chans markers) (combine wfs lens))) as [outs|].
+  destruct (all_ok (map (direct_one chans markers) (combine wfs lens))) as [outs|].
   - destruct G as (c & m & vs & G & _ & _ & Rd). rewrite G. rewrite Rd. reflexivity.
   - rewrite G. reflexivity.
 Qed.
